@@ -1,7 +1,6 @@
 HARNESSES += C17_cpt
 C17_cpt_SRCS  := xtp/src/libxtp/checkpoint.cc xtp/src/libxtp/staticsite.cc
 C17_cpt_XTP   := 1
-# checkpoint.cc includes "votca/xtp/votca_xtp_config.h": stub under harness/C17_inc
-C17_cpt_FLAGS := $(EIGEN_THROW) -include stdexcept -I$(abspath C17_inc) $(SAN) -fno-sanitize=float-cast-overflow
+C17_cpt_FLAGS := $(EIGEN_THROW) -include stdexcept $(SAN) -fno-sanitize=float-cast-overflow
 C17_cpt_LIBS  := $(LIBTOOLS) -L/usr/lib/x86_64-linux-gnu/hdf5/serial -lhdf5_cpp -lhdf5
 C17_cpt_DEPS  := $(TOOLSSO)
